@@ -75,10 +75,15 @@ def run_simple(pid, tier, plan, replay=None):
         for i, ((trace, line), clauses) in enumerate(sorted(bad.items())[:5]):
             dest = os.path.join(VERIF, "replay", "%s-seed%d-%d.ndjson" % (pid, seed(), i))
             os.makedirs(os.path.dirname(dest), exist_ok=True)
-            with open(trace) as f:
-                for k, ln in enumerate(f, 1):
-                    if k == line:
-                        open(dest, "w").write(ln)
+            with open(trace) as f, open(dest, "w") as o:
+                lines = f.readlines()
+                if plan.get("replay_whole_script"):
+                    sid = json.loads(lines[line - 1]).get("sid")
+                    for ln in lines[:line]:
+                        if json.loads(ln).get("sid") == sid:
+                            o.write(ln)
+                else:
+                    o.write(lines[line - 1])
             replay_paths.append((dest, sorted(clauses)))
         nbad = len(bad)
         coverage = {
